@@ -211,6 +211,18 @@ def _datasets(tree):
                     "`SQLDatasetLinearIterator.query`")
     out += def_strs("sqlShuffleQuery", _stmts(_method(tree, "SQLDatasetRandomPermutationIterator", "query")),
                     "`SQLDatasetRandomPermutationIterator.query`")
+    # state that outlives one iterator object: `DatasetBase.datasets` is created and never used, the CSV
+    # iterators take (datasource, repeat) only — nothing parsed is shared between two iterators of a file
+    uses = sorted({ast.unparse(st) for st in ast.walk(tree) if isinstance(st, ast.stmt) and not isinstance(st, (ast.ClassDef, ast.FunctionDef, ast.If, ast.With, ast.Try, ast.For, ast.While))
+                   and any(isinstance(n, ast.Attribute) and n.attr == "datasets" for n in ast.walk(st))})
+    out += def_strs("datasetsAttrUses", uses, "every statement that touches an attribute named `datasets`")
+    params = []
+    for cls in ("CSVDatasetLinearIterator", "CSVDatasetRandomPermutationIterator", "SQLDatasetIterator"):
+        if _has_method(tree, cls, "__init__"):
+            params.append(cls + "(" + ",".join(a.arg for a in _method(tree, cls, "__init__").args.args[1:]) + ")")
+    out += def_strs("iteratorCtorParams", params, "constructor parameters of the iterator classes")
+    mod_state = [ast.unparse(n.targets[0]) for n in tree.body if isinstance(n, ast.Assign)]
+    out += def_strs("moduleLevelAssignments", mod_state, "module-level variables of datasets.py (none: no module-wide cache)")
     # the shuffle used is random.shuffle
     imports = [ast.unparse(n) for n in tree.body if isinstance(n, ast.ImportFrom) and n.module == "random"]
     out += def_strs("randomImports", imports, "what the module takes from `random`")
